@@ -245,18 +245,88 @@ func (ro *Roles) schedulableFn() *ssa.Function {
 	return is
 }
 
+// listFn: the exported method that reports the pipelines ([]PipelineInfo).
+func (ro *Roles) listFn() *ssa.Function {
+	return ro.w.FuncByRole("", "(*PipelineRunner).ListPipelines", func(f *ssa.Function) bool {
+		return f.Object() != nil && f.Object().Exported() && recvIs(f, "PipelineRunner") && f.Signature.Results().Len() == 1 && strings.HasSuffix(f.Signature.Results().At(0).Type().String(), "PipelineInfo")
+	})
+}
+
+// listedFlags enumerates the listing function with the schedulable predicate (if it is a
+// function of its own) spliced in and returns, per path that fills a PipelineInfo: the key,
+// the stored Schedulable and Running values, the admission call asked and the action set.
+type listedFlag struct {
+	p                       *Path
+	key, sched, running, ap string
+	set                     map[string]bool
+}
+
+func (ro *Roles) listedFlags() ([]listedFlag, *ssa.Function) {
+	w := ro.w
+	lp := ro.listFn()
+	if lp == nil || ro.Admit == nil {
+		return nil, lp
+	}
+	res := w.EnumPaths(lp, EnumOpts{Inline: true, MaxPaths: 20000, Opaque: func(f *ssa.Function) bool { return f == ro.Admit || f == ro.PipeRunning || w.statelessCallee(f) }})
+	prefix := FuncName(ro.Admit) + "("
+	var out []listedFlag
+	for _, p := range res.Paths {
+		lf := listedFlag{p: p}
+		for _, e := range p.Effects {
+			if e.Kind != "store" {
+				continue
+			}
+			switch {
+			case strings.HasSuffix(e.Target, ".Pipeline"):
+				lf.key = e.Val
+			case strings.HasSuffix(e.Target, ".Schedulable"):
+				lf.sched = e.Val
+			case strings.HasSuffix(e.Target, ".Running"):
+				lf.running = e.Val
+			}
+		}
+		if lf.sched == "" {
+			continue
+		}
+		lf.set, lf.ap = ro.actionSetOn(p, prefix)
+		if lf.ap == "" {
+			// a predicate returned as one comparison: the call is inside the stored expression
+			if i := strings.Index(lf.sched, prefix); i >= 0 {
+				rest := lf.sched[i:]
+				depth := 0
+				for j, ch := range rest {
+					if ch == '(' {
+						depth++
+					}
+					if ch == ')' {
+						depth--
+						if depth == 0 {
+							lf.ap = rest[:j+1]
+							break
+						}
+					}
+				}
+			}
+		}
+		out = append(out, lf)
+	}
+	return out, lp
+}
+
 func (ro *Roles) schedulableAgreement(r *Report, rule string) {
 	w := ro.w
-	is := ro.schedulableFn()
-	if !ro.need(r, rule, map[string]*ssa.Function{"schedulable predicate": is, "accept function": ro.Accept, "admission function": ro.Admit}) {
+	flags, lp := ro.listedFlags()
+	if !ro.need(r, rule, map[string]*ssa.Function{"listing function": lp, "accept function": ro.Accept, "admission function": ro.Admit}) {
 		return
 	}
-	r.Anchor("schedulable predicate", FuncName(is))
+	if is := ro.schedulableFn(); is != nil {
+		r.Anchor("schedulable predicate", FuncName(is))
+	}
+	lname := FuncName(lp)
 	prefix := FuncName(ro.Admit) + "("
 	// per action: does the accept function reject?
-	acc := w.EnumPaths(ro.Accept, EnumOpts{Inline: true, Opaque: w.statelessCallee})
-	sch := w.EnumPaths(is, EnumOpts{})
-	r.Count("paths", len(acc.Paths)+len(sch.Paths))
+	acc := w.EnumPaths(ro.Accept, EnumOpts{Inline: true, Opaque: ro.isSnapshotCtor})
+	r.Count("paths", len(acc.Paths)+len(flags))
 	rejects := map[string]bool{}
 	accepts := map[string]bool{}
 	accAP, schAP := "", ""
@@ -277,20 +347,24 @@ func (ro *Roles) schedulableAgreement(r *Report, rule string) {
 			}
 		}
 	}
+	// what the listing reports per admission decision (the stored Schedulable value, evaluated
+	// for the decision when it is an expression over the admission call)
 	says := map[string]map[string]bool{}
-	for _, p := range sch.Paths {
-		if p.End != "return" || len(p.Ret) != 1 {
-			continue
+	for _, lf := range flags {
+		if lf.ap != "" {
+			schAP = lf.ap
 		}
-		set, ap := ro.actionSetOn(p, prefix)
-		if ap != "" {
-			schAP = ap
-		}
-		for a := range set {
+		for a := range lf.set {
+			val := lf.sched
+			if val != "true" && val != "false" && lf.ap != "" {
+				if v, err := evalAPExpr(val, map[string]string{lf.ap: "action"}, map[string]int64{"action": ro.Actions[a]}); err == "" {
+					val = map[int64]string{0: "false", 1: "true"}[v]
+				}
+			}
 			if says[a] == nil {
 				says[a] = map[string]bool{}
 			}
-			says[a][p.Ret[0]] = true
+			says[a][val] = true
 		}
 	}
 	var acts []string
@@ -299,8 +373,8 @@ func (ro *Roles) schedulableAgreement(r *Report, rule string) {
 	}
 	sort.Strings(acts)
 	for _, a := range acts {
-		key := FuncName(is) + ": action " + a
-		pos := w.Pos(is.Pos())
+		key := lname + ": Schedulable for admission decision " + a
+		pos := w.Pos(lp.Pos())
 		want := "true"
 		if rejects[a] && !accepts[a] {
 			want = "false"
@@ -311,11 +385,27 @@ func (ro *Roles) schedulableAgreement(r *Report, rule string) {
 		}
 		got := says[a]
 		r.Check(len(got) == 1 && got[want], rule, key, pos, "schedulable = "+want+" ⇔ the accept function "+map[string]string{"true": "accepts", "false": "rejects"}[want]+" this decision",
-			fmt.Sprintf("for admission decision %s the accept function %s the request but the schedulable predicate answers %v: clients are offered an action that fails (or are denied one that would work)", a, map[string]string{"true": "accepts", "false": "rejects"}[want], setStr(got)))
+			fmt.Sprintf("for admission decision %s the accept function %s the request but the listing reports schedulable = %v: clients are offered an action that fails (or are denied one that would work)", a, map[string]string{"true": "accepts", "false": "rejects"}[want], setStr(got)))
 	}
-	// both ask the same question
-	norm := func(s string) string { return s }
-	r.Check(accAP != "" && norm(accAP) == norm(schAP), rule+".same-question", FuncName(is)+": same admission call as the accept function", w.Pos(is.Pos()), "both call "+accAP, "the schedulable predicate asks "+schAP+" but the accept function decides on "+accAP)
+	// both ask the same question: (runner, pipeline, ignore = false) — the accept function about its
+	// pipeline argument, the listing about the pipeline it reports
+	okQ := accAP != "" && schAP != ""
+	detail := ""
+	if okQ {
+		aa := splitArgs(strings.TrimSuffix(strings.TrimPrefix(accAP, prefix), ")"))
+		okQ = len(aa) >= 3 && aa[0] == "recv" && aa[1] == "arg0" && aa[len(aa)-1] == "false"
+		for _, lf := range flags {
+			if lf.ap == "" {
+				continue
+			}
+			sa := splitArgs(strings.TrimSuffix(strings.TrimPrefix(lf.ap, prefix), ")"))
+			if !(len(sa) == len(aa) && sa[0] == "recv" && sa[1] == lf.key && sa[len(sa)-1] == "false") {
+				okQ = false
+				detail = lf.ap + " for the listed pipeline " + lf.key
+			}
+		}
+	}
+	r.Check(okQ, rule+".same-question", lname+": same admission question as the accept function", w.Pos(lp.Pos()), "both ask "+prefix+"runner, pipeline, false)", "the listing asks "+nameOr(detail, schAP)+" but the accept function decides on "+accAP)
 }
 
 // ---------------------------------------------------------------------------------
@@ -344,17 +434,11 @@ func (ro *Roles) runningAgreement(r *Report, rule string) {
 	})
 	r.Check(okE && nFalse == 1, rule+".exists", FuncName(fn)+": ∃ running job of the pipeline", w.Pos(fn.Pos()), "true exactly when some job of jobsByPipeline[pipeline] satisfies the running predicate", "the pipeline-running flag is not '∃ job of the pipeline with the running predicate'")
 	// the list function reports it for the same pipeline
-	if lp := w.FuncByName("", "(*PipelineRunner).ListPipelines"); lp != nil {
-		maps := w.FieldMaps("", "PipelineInfo")
-		okL := false
-		for _, m := range maps {
-			if m.Func == "ListPipelines" {
-				run, sch, pl := m.Get("Running"), m.Get("Schedulable"), m.Get("Pipeline")
-				schedName, runName := "isSchedulable", ro.PipeRunning.Name()
-				if sf := ro.schedulableFn(); sf != nil {
-					schedName = sf.Name()
-				}
-				okL = run != nil && sch != nil && pl != nil && strings.Contains(sch.Expr, schedName+"("+pl.Expr+")") && (strings.Contains(run.Expr, runName+"("+pl.Expr+")") || run.Expr == "running")
+	if flags, lp := ro.listedFlags(); lp != nil {
+		okL := len(flags) > 0
+		for _, lf := range flags {
+			if lf.key == "" || lf.running != FuncName(ro.PipeRunning)+"(recv,"+lf.key+")" {
+				okL = false
 			}
 		}
 		r.Check(okL, rule+".listed", "ListPipelines: Running/Schedulable of the listed pipeline", w.Pos(lp.Pos()), "both flags are computed for the pipeline they are reported for", "ListPipelines reports flags computed for another pipeline or by other predicates")
